@@ -65,6 +65,9 @@ inductive S
   | declCall (x : String) (g : String) (args : List E) (k : S)
   /-- `x = g(args);` -/
   | assignCall (x : String) (g : String) (args : List E) (k : S)
+  /-- `break;` / `continue;` (what follows in the block is unreachable and dropped by the front end) -/
+  | brk
+  | cnt
   deriving Repr, Inhabited
 
 /-- a user function: `int` parameters, result `int` or `empty` -/
@@ -311,6 +314,8 @@ def lenS (ck : Bool) : S → Nat
   | .callS _ args k => lenCall ck args + lenS ck k
   | .declCall _ _ args k => lenCall ck args + lenS ck k
   | .assignCall _ _ args k => lenCall ck args + 2 + lenS ck k
+  | .brk => 2
+  | .cnt => 2
 
 /-- the call `write(e)` for an `int` argument (`eval_func_call`, general path, callee `write_int`) -/
 def cWrite (cx : Cx) (Γ : Gam) (pc o : Nat) (e : E) : List Instr :=
@@ -335,59 +340,61 @@ def cCall (cx : Cx) (fa : FAddr) (Γ : Gam) (pc o : Nat) (g : String) (args : Li
     [.alu .add cx.fp (.st cx.fp) (cx.negImm o), .j (.imm (faddr fa g)), .halt,
      .alu .add cx.fp (.st cx.fp) (.imm (wrapI cx.M o))]
 
-def cS (cx : Cx) (fa : FAddr) : (Γ : Gam) → (pc o : Nat) → S → List Instr
-  | _, _, _, .nil => []
-  | _, _, _, .ret => [ldSlot cx cx.r1 cx.w, .j (.st cx.r1), .halt]
-  | Γ, pc, o, .decl x e k =>
+def cS (cx : Cx) (fa : FAddr) : (lp : Nat × Nat) → (Γ : Gam) → (pc o : Nat) → S → List Instr
+  | _, _, _, _, .nil => []
+  | _, _, _, _, .ret => [ldSlot cx cx.r1 cx.w, .j (.st cx.r1), .halt]
+  | lp, Γ, pc, o, .decl x e k =>
     let c := pushE cx Γ pc o e
-    c ++ cS cx fa ((x, o + cx.w) :: Γ) (pc + c.length) (o + cx.w) k
-  | Γ, pc, o, .assign x e k =>
+    c ++ cS cx fa lp ((x, o + cx.w) :: Γ) (pc + c.length) (o + cx.w) k
+  | lp, Γ, pc, o, .assign x e k =>
     let (c, v) := gV cx Γ pc o cx.r1 e
     let c := c ++ [stSlot cx (look Γ x) (v.arg cx)]
-    c ++ cS cx fa Γ (pc + c.length) o k
-  | Γ, pc, o, .write e k =>
+    c ++ cS cx fa lp Γ (pc + c.length) o k
+  | lp, Γ, pc, o, .write e k =>
     let c := cWrite cx Γ pc o e
-    c ++ cS cx fa Γ (pc + c.length) o k
-  | Γ, pc, o, .writeln (some e) k =>
+    c ++ cS cx fa lp Γ (pc + c.length) o k
+  | lp, Γ, pc, o, .writeln (some e) k =>
     let c := cWrite cx Γ pc o e ++ [.yld (.imm 10)]
-    c ++ cS cx fa Γ (pc + c.length) o k
-  | Γ, pc, o, .writeln none k => .yld (.imm 10) :: cS cx fa Γ (pc + 1) o k
-  | Γ, pc, o, .putc ch k => .yld (.imm (ch % cx.M)) :: cS cx fa Γ (pc + 1) o k
-  | Γ, pc, o, .block b k =>
-    let c := cS cx fa Γ pc o b
-    c ++ cS cx fa Γ (pc + c.length) o k
-  | Γ, pc, o, .ifb c t e k =>
+    c ++ cS cx fa lp Γ (pc + c.length) o k
+  | lp, Γ, pc, o, .writeln none k => .yld (.imm 10) :: cS cx fa lp Γ (pc + 1) o k
+  | lp, Γ, pc, o, .putc ch k => .yld (.imm (ch % cx.M)) :: cS cx fa lp Γ (pc + 1) o k
+  | lp, Γ, pc, o, .block b k =>
+    let c := cS cx fa lp Γ pc o b
+    c ++ cS cx fa lp Γ (pc + c.length) o k
+  | lp, Γ, pc, o, .ifb c t e k =>
     let nC := lenB cx.checked c 0 2 false true
     let elseA := pc + nC + lenS cx.checked t + 2
     let endA := elseA + lenS cx.checked e
-    cB cx Γ pc o c [] (goto elseA) ++ cS cx fa Γ (pc + nC) o t ++ goto endA ++ cS cx fa Γ elseA o e
-      ++ cS cx fa Γ endA o k
-  | Γ, pc, o, .loop c body cont k =>
+    cB cx Γ pc o c [] (goto elseA) ++ cS cx fa lp Γ (pc + nC) o t ++ goto endA ++ cS cx fa lp Γ elseA o e
+      ++ cS cx fa lp Γ endA o k
+  | lp, Γ, pc, o, .loop c body cont k =>
     let nC := lenB cx.checked c 0 2 false true
     let contA := pc + nC + lenS cx.checked body
     let brkA := contA + lenS cx.checked cont + 2
-    cB cx Γ pc o c [] (goto brkA) ++ cS cx fa Γ (pc + nC) o body ++ cS cx fa Γ contA o cont ++ goto pc
-      ++ cS cx fa Γ brkA o k
-  | Γ, pc, o, .defeat k => .halt :: cS cx fa Γ (pc + 1) o k
-  | Γ, pc, o, .defeatIf c k =>
+    cB cx Γ pc o c [] (goto brkA) ++ cS cx fa (contA, brkA) Γ (pc + nC) o body ++ cS cx fa lp Γ contA o cont ++ goto pc
+      ++ cS cx fa lp Γ brkA o k
+  | lp, Γ, pc, o, .defeat k => .halt :: cS cx fa lp Γ (pc + 1) o k
+  | lp, Γ, pc, o, .defeatIf c k =>
     let d := cD cx Γ pc o c
-    d ++ cS cx fa Γ (pc + d.length) o k
-  | Γ, pc, o, .tryUndo body handler k =>
+    d ++ cS cx fa lp Γ (pc + d.length) o k
+  | lp, Γ, pc, o, .tryUndo body handler k =>
     let hA := pc + 1 + lenS cx.checked body + 2
     let endA := hA + lenS cx.checked handler
-    [.j (.imm hA)] ++ cS cx fa Γ (pc + 1) o body ++ goto endA ++ cS cx fa Γ hA o handler ++ cS cx fa Γ endA o k
-  | Γ, pc, o, .retE e =>
+    [.j (.imm hA)] ++ cS cx fa lp Γ (pc + 1) o body ++ goto endA ++ cS cx fa lp Γ hA o handler ++ cS cx fa lp Γ endA o k
+  | lp, Γ, pc, o, .retE e =>
     let (c, v) := gV cx Γ pc o cx.r0 e
     c ++ [ldSlot cx cx.r1 cx.w, stSlot cx cx.w (v.arg cx), .j (.st cx.r1), .halt]
-  | Γ, pc, o, .callS g args k =>
+  | lp, Γ, pc, o, .callS g args k =>
     let c := cCall cx fa Γ pc o g args
-    c ++ cS cx fa Γ (pc + c.length) o k
-  | Γ, pc, o, .declCall x g args k =>
+    c ++ cS cx fa lp Γ (pc + c.length) o k
+  | lp, Γ, pc, o, .declCall x g args k =>
     let c := cCall cx fa Γ pc o g args
-    c ++ cS cx fa ((x, o + cx.w) :: Γ) (pc + c.length) (o + cx.w) k
-  | Γ, pc, o, .assignCall x g args k =>
+    c ++ cS cx fa lp ((x, o + cx.w) :: Γ) (pc + c.length) (o + cx.w) k
+  | lp, Γ, pc, o, .assignCall x g args k =>
     let c := cCall cx fa Γ pc o g args ++ [ldSlot cx cx.r1 (o + cx.w), stSlot cx (look Γ x) (.st cx.r1)]
-    c ++ cS cx fa Γ (pc + c.length) o k
+    c ++ cS cx fa lp Γ (pc + c.length) o k
+  | lp, _, _, _, .brk => goto lp.2
+  | lp, _, _, _, .cnt => goto lp.1
 
 /-! ## the stack-check constant (`Tracker`): the peak of `stack.static_size` over the function -/
 def pkE (w : Nat) : (o : Nat) → E → Bool → Nat
@@ -440,6 +447,8 @@ def pkS (w : Nat) : (o : Nat) → S → Nat
   | o, .callS _ args k => max (pkCall w o args) (pkS w o k)
   | o, .declCall _ _ args k => max (pkCall w o args) (pkS w (o + w) k)
   | o, .assignCall _ _ args k => max (pkCall w o args) (pkS w o k)
+  | o, .brk => o
+  | o, .cnt => o
 
 /-! ## the whole program -/
 structure Config where
@@ -491,7 +500,7 @@ def funcCode (cx : Cx) (fa : FAddr) (base : Nat) (params : List String) (body : 
     [.j (.imm (base + 5)), .alu .sub cx.r1 (.st cx.fp) (.st 0),
      .hcond .hgeu (.st cx.r1) (.imm (pkS cx.w (entryOff cx.w params) body % cx.M)),
      .j (.imm (cx.B + off_stack_overflow)), .halt]
-   else []) ++ cS cx fa (paramGam cx.w (2 * cx.w) params) (base + prologueLen cx.checked) (entryOff cx.w params) body
+   else []) ++ cS cx fa (0, 0) (paramGam cx.w (2 * cx.w) params) (base + prologueLen cx.checked) (entryOff cx.w params) body
 
 def funsCode (cx : Cx) (fa : FAddr) : Nat → List FDecl → List Instr
   | _, [] => []
@@ -548,7 +557,7 @@ def evalB (M n : Nat) (env : Env) : B → Option Bool
     let a ← evalB M n env l
     if a then pure true else evalB M n env r
 
-inductive Res | norm | returned | div0 | defeat | retv (v : Nat) | ovf
+inductive Res | norm | returned | div0 | defeat | retv (v : Nat) | ovf | brk | cnt
   deriving DecidableEq, Repr, Inhabited
 
 def upd (env : Env) (x : String) (v : Nat) : Env := fun y => if y = x then v else env y
@@ -645,12 +654,15 @@ def exec (M n : Nat) (fns : List FDecl) (w : Nat) :
     | some false => exec M n fns w f room o env k
     | some true => do
       let (env1, tr1, r1) ← exec M n fns w f room o env body
-      if r1 = .norm then
+      if r1 = .norm ∨ r1 = .cnt then
         let (env2, tr2, r2) ← exec M n fns w f room o env1 cont
         if r2 = .norm then
           let (env3, tr3, r3) ← exec M n fns w f room o env2 (.loop c body cont k)
           pure (env3, tr1 ++ tr2 ++ tr3, r3)
         else pure (env2, tr1 ++ tr2, r2)
+      else if r1 = .brk then
+        let (env3, tr3, r3) ← exec M n fns w f room o env1 k
+        pure (env3, tr1 ++ tr3, r3)
       else pure (env1, tr1, r1)
   | _ + 1, _, _, env, .defeat _ => some (env, [], .defeat)
   | f + 1, room, o, env, .defeatIf c k =>
@@ -698,6 +710,9 @@ def exec (M n : Nat) (fns : List FDecl) (w : Nat) :
     | some (trc, none, some v) => do
       let (env', tr, r) ← exec M n fns w f room o (upd env x v) k
       pure (env', trc ++ tr, r)
+
+  | _ + 1, _, _, env, .brk => some (env, [], .brk)
+  | _ + 1, _, _, env, .cnt => some (env, [], .cnt)
 
 /-- the environment the entry point starts in: its parameters bound to the arguments -/
 def argEnv (M : Nat) (params : List String) (args : List Int) : Env := bindEnv params (args.map (wrapI M))
@@ -774,6 +789,8 @@ partial def toS (fns : List String) : List Hid.Stmt → Option S
     if isD c then pure (.defeatIf c (← toS fns k)) else none
   | .expr (.call g ptys args) :: k =>
     if fns.contains g && ptys.all (· == .int) then do pure (.callS g (← args.mapM toE) (← toS fns k)) else none
+  | .brk :: _ => some .brk
+  | .cont :: _ => some .cnt
   | .block ss :: k => do pure (.block (← toS fns ss) (← toS fns k))
   | .ifb c (.block t) (.block e) :: k => do pure (.ifb (← toB c) (← toS fns t) (← toS fns e) (← toS fns k))
   | .loop c (.block body) (.block cont) :: k => do pure (.loop (← toB c) (← toS fns body) (← toS fns cont) (← toS fns k))
@@ -783,7 +800,7 @@ partial def toS (fns : List String) : List Hid.Stmt → Option S
 
 /-- the functions called in a statement list, in the order in which code generation meets the calls -/
 def callsOf : S → List String
-  | .nil => [] | .ret => [] | .retE _ => []
+  | .nil => [] | .ret => [] | .retE _ => [] | .brk => [] | .cnt => []
   | .decl _ _ k => callsOf k | .assign _ _ k => callsOf k | .write _ k => callsOf k | .writeln _ k => callsOf k
   | .putc _ k => callsOf k
   | .block b k => callsOf b ++ callsOf k
@@ -867,6 +884,8 @@ def wfS : List String → S → Bool
   | Γ, .callS _ args k => args.all (boundE Γ) && wfS Γ k
   | Γ, .declCall x _ args k => args.all (boundE Γ) && !Γ.contains x && wfS (x :: Γ) k
   | Γ, .assignCall x _ args k => Γ.contains x && args.all (boundE Γ) && wfS Γ k
+  | _, .brk => true
+  | _, .cnt => true
 
 /-- no `try` inside (the body of a `try` is a defeat context, where `try` is not allowed) -/
 def noTry : S → Bool
@@ -880,6 +899,7 @@ def noTry : S → Bool
   | .tryUndo _ _ _ => false
   | .retE _ => true
   | .callS _ _ k => noTry k | .declCall _ _ _ k => noTry k | .assignCall _ _ _ k => noTry k
+  | .brk => true | .cnt => true
 
 /-- neither `try` nor defeat calls -/
 def plain : S → Bool
@@ -893,6 +913,7 @@ def plain : S → Bool
   | .tryUndo _ _ _ => false
   | .retE _ => true
   | .callS _ _ k => plain k | .declCall _ _ _ k => plain k | .assignCall _ _ _ k => plain k
+  | .brk => true | .cnt => true
 
 /-- the flavour rules on core programs (guaranteed by the parser, C06): at the level of the you
 function defeat calls occur only inside `try` bodies, `try` is not nested, handlers are plain -/
@@ -907,6 +928,7 @@ def youLevel : S → Bool
   | .tryUndo body handler k => noTry body && plain handler && youLevel k
   | .retE _ => true
   | .callS _ _ k => youLevel k | .declCall _ _ _ k => youLevel k | .assignCall _ _ _ k => youLevel k
+  | .brk => true | .cnt => true
 
 /-- control never falls off the end of the list (the front end appends `return;` to every `void`
 function that could, and rejects the others: `FuncDefinition.evaluate`) -/
@@ -920,10 +942,24 @@ def noFall : S → Bool
   | .defeat _ => true | .defeatIf _ k => noFall k
   | .tryUndo b h k => (noFall b && noFall h) || noFall k
   | .callS _ _ k => noFall k | .declCall _ _ _ k => noFall k | .assignCall _ _ _ k => noFall k
+  | .brk => true | .cnt => true
+
+/-- `break` and `continue` occur only inside loop bodies (`inLoop`; guaranteed by the parser, C06) -/
+def escFree : Bool → S → Bool
+  | _, .nil => true | _, .ret => true | _, .retE _ => true
+  | b, .brk => b | b, .cnt => b
+  | b, .decl _ _ k => escFree b k | b, .assign _ _ k => escFree b k | b, .write _ k => escFree b k
+  | b, .writeln _ k => escFree b k | b, .putc _ k => escFree b k
+  | b, .block s k => escFree b s && escFree b k
+  | b, .ifb _ t e k => escFree b t && escFree b e && escFree b k
+  | b, .loop _ body cont k => escFree true body && escFree b cont && escFree b k
+  | b, .defeat k => escFree b k | b, .defeatIf _ k => escFree b k
+  | b, .tryUndo s h k => escFree b s && escFree b h && escFree b k
+  | b, .callS _ _ k => escFree b k | b, .declCall _ _ _ k => escFree b k | b, .assignCall _ _ _ k => escFree b k
 
 /-- every call names a function of the table with the right number of arguments -/
 def callsOK (fns : List FDecl) : S → Bool
-  | .nil => true | .ret => true | .retE _ => true
+  | .nil => true | .ret => true | .retE _ => true | .brk => true | .cnt => true
   | .decl _ _ k => callsOK fns k | .assign _ _ k => callsOK fns k | .write _ k => callsOK fns k
   | .writeln _ k => callsOK fns k | .putc _ k => callsOK fns k
   | .block b k => callsOK fns b && callsOK fns k
@@ -940,7 +976,8 @@ def callsOK (fns : List FDecl) : S → Bool
 
 /-- the static conditions the theorems assume of a program (all guaranteed by the front end) -/
 def wfProg (pr : CProg) : Bool :=
-  pr.params.Nodup && wfS pr.params pr.body && youLevel pr.body && noFall pr.body && callsOK pr.funs pr.body &&
+  pr.params.Nodup && wfS pr.params pr.body && youLevel pr.body && noFall pr.body && escFree false pr.body &&
+  callsOK pr.funs pr.body &&
   (pr.funs.map (·.name)).Nodup &&
   pr.funs.all (fun fd => fd.params.Nodup && wfS fd.params fd.body && plain fd.body && callsOK pr.funs fd.body)
 
